@@ -120,7 +120,20 @@ def rule_clock(fx, rep):
                 okw = False
                 rep.violation("C11-CLOCK", f"C11-CLOCK/writer/{norm(b.name).split('::')[-1]}", f"`{b.name}` writes the halfmove clock: only make_move (reset exactly on captures and pawn moves) and the "
                               "take-backs may; below such a write the fifty-move count and the repetition window no longer follow the game history", {"fn": b.name, "file": b.file, "line": b.line_of(wb)})
-    rep.rule("C11-CLOCK", 1 + nw, 1, not vs and okw, "halfmove clock reset exactly on captures and pawn moves (shared with C02-FORWARD); no other writer")
+    # ... and a take-back puts back exactly the clock that was saved (C02-HIST's save / restore clauses for this field, re-reported:
+    # a saved copy narrowed to u8 restores the clock modulo 256)
+    sub2 = type(rep)(rep.prop, rep.tier)
+    q2 = core.QUIET
+    core.QUIET = True
+    try:
+        pC02.rule_hist(fx, sub2)
+    finally:
+        core.QUIET = q2
+    hv = [v for v in sub2.violations if "halfmove_clock" in v["key"]]
+    for v in hv:
+        rep.violation("C11-CLOCK", v["key"].replace("C02-HIST", "C11-CLOCK/hist"), v["msg"] + " (the fifty-move count and the repetition window are then wrong after a take-back)", v["site"])
+    rep.obligation(not hv)
+    rep.rule("C11-CLOCK", 1 + nw, 1, not vs and okw and not hv, "halfmove clock reset exactly on captures and pawn moves (shared with C02-FORWARD); no other writer; restored exactly")
 
 
 # ---- C11-MATERIAL --------------------------------------------------------------------------
@@ -727,6 +740,8 @@ def cond_holds(c, val, dparam, d):
 
 G = "src/chess/game.rs"
 MUTANTS = [
+    {"name": "saved halfmove clock narrowed to u8 (seed C11-13a)", "expect": "C11-CLOCK/hist",
+     "edits": __import__("shared_mutants").edits_from_patch("seeded/C11-13a/patch.diff")},
     {"name": "make_null_move zeroes the halfmove clock (seed C11-11a)", "expect": "C11-CLOCK/writer/make_null_move",
      "edits": __import__("shared_mutants").edits_from_patch("seeded/C11-11a/patch.diff")},
     {"name": "an occurrence before the search root counts only when it is the second one (seed C11-9a)", "expect": "C11-REPKEY/parameter",
